@@ -33,7 +33,9 @@ def specs_for(ctx):
         specs.append({"pair": True, "pair_kind": "similarity", "tissue": tissue, "k": rng.choice([1, 2, 4, 8]),
                       "seed": rng.randrange(10 ** 9), "want": ["C06"], "runA": {"sim": simA}, "runB": {"sim": simB},
                       "build": {"limit": "inf", "fit": rng.choice(["dlite", "taubinSVD"])}, "solve": {"method": "default"},
-                      "pressure": True, "require_conditioned": tissue["kind"] == "equilibrium"})
+                      "pressure": True, "require_conditioned": tissue["kind"] == "equilibrium",
+                      # a fifth of the pairs transform the live objects in place between two analyses instead of rebuilding
+                      "inplace": rng.random() < 0.2})
     return specs
 
 
